@@ -10,10 +10,11 @@ import (
 )
 
 // Value is what an SSA register holds during symbolic execution:
-//   *Term     an SMT value
-//   *Ptr      a pointer (object reference plus a static path into it)
-//   Tuple     several values
-//   *Closure  a function value whose target is known
+//
+//	*Term     an SMT value
+//	*Ptr      a pointer (object reference plus a static path into it)
+//	Tuple     several values
+//	*Closure  a function value whose target is known
 type Value interface{}
 
 type Tuple []Value
@@ -67,18 +68,20 @@ type iterState struct {
 }
 
 type Frame struct {
-	fn      *ssa.Function
-	regs    map[ssa.Value]Value
-	block   *ssa.BasicBlock
-	prev    *ssa.BasicBlock
-	idx     int
-	defers  []deferRec
-	retTo   ssa.Value // register in the caller frame receiving the result; nil for deferred/go
-	cut     map[*ssa.BasicBlock]bool
-	iters   map[ssa.Value]*iterState
+	fn       *ssa.Function
+	regs     map[ssa.Value]Value
+	block    *ssa.BasicBlock
+	prev     *ssa.BasicBlock
+	idx      int
+	defers   []deferRec
+	retTo    ssa.Value // register in the caller frame receiving the result; nil for deferred/go
+	cut      map[*ssa.BasicBlock]bool
+	iters    map[ssa.Value]*iterState
 	contract *Contract // contract whose loop invariants apply to this frame (may be nil)
 	inDefers bool
 	itsums   map[ssa.Value]iterSums
+	names    map[string]ssa.Value       // source variable -> the SSA value most recently bound to it on this path (from DebugRefs)
+	objs     map[types.Object]ssa.Value // the same per declared object (several objects may share a name)
 }
 
 func (f *Frame) clone() *Frame {
@@ -100,6 +103,16 @@ func (f *Frame) clone() *Frame {
 				c[a] = b
 			}
 			g.itsums[k] = c
+		}
+	}
+	if f.names != nil {
+		g.names = make(map[string]ssa.Value, len(f.names))
+		for k, v := range f.names {
+			g.names[k] = v
+		}
+		g.objs = make(map[types.Object]ssa.Value, len(f.objs))
+		for k, v := range f.objs {
+			g.objs[k] = v
 		}
 	}
 	g.iters = make(map[ssa.Value]*iterState, len(f.iters))
@@ -127,10 +140,20 @@ type State struct {
 	clock   *Term // last clock reading (monotone)
 	events  []Event
 	dead    bool
+	gmaps   []guardedMap // map references loaded from mutex-guarded fields on this path
+}
+
+// guardedMap: a map reference read out of a guarded field; operations on the same map through
+// a local alias still need the owning mutex.
+type guardedMap struct {
+	ref  *Term
+	mu   *Ptr
+	mt   *types.Map
+	name string
 }
 
 func (s *State) clone() *State {
-	t := &State{alloc: s.alloc, clock: s.clock}
+	t := &State{alloc: s.alloc, clock: s.clock, gmaps: s.gmaps[:len(s.gmaps):len(s.gmaps)]}
 	t.pc = append([]string{}, s.pc...)
 	t.heaps = make(map[string]*Term, len(s.heaps))
 	for k, v := range s.heaps {
@@ -184,60 +207,61 @@ func (s *State) assume(t *Term) {
 // ---------------------------------------------------------------------------
 
 type Obligation struct {
-	Name     string   // stable name: <pkg>.<func>:<kind>
-	Props    []string // property ids
-	Func     string
-	FuncKey  string
-	Kind     string
-	Path     int
-	Trace    []string
-	Pos      string
-	Script   string
-	Prefix   string // script up to (not including) the goal assertion
-	Group    string // obligations of one group share Prefix and are first tried as one conjunction
-	Goal     string
-	Result   SolveResult
-	Candidate bool // Result.Model comes from the weakened query (quantified assumptions dropped)
-	MustFail bool // vacuity canary: expected sat
-	Values   []string // terms whose values are requested from the model
-	Labels   map[string]string // term -> readable label
+	Name      string   // stable name: <pkg>.<func>:<kind>
+	Props     []string // property ids
+	Func      string
+	FuncKey   string
+	Kind      string
+	Path      int
+	Trace     []string
+	Pos       string
+	Script    string
+	Prefix    string // script up to (not including) the goal assertion
+	Seq       int    // position in the discharge order: makes the query file name unique
+	Group     string // obligations of one group share Prefix and are first tried as one conjunction
+	Goal      string
+	Result    SolveResult
+	Candidate bool              // Result.Model comes from the weakened query (quantified assumptions dropped)
+	MustFail  bool              // vacuity canary: expected sat
+	Values    []string          // terms whose values are requested from the model
+	Labels    map[string]string // term -> readable label
 }
 
 // VC is the verification context of one function under contract.
 type VC struct {
-	eng      *Engine
-	fn       *ssa.Function
-	contract *Contract
-	props    []string
-	decls    []string
-	declSet  map[string]bool
-	axioms   []string
-	obls     []*Obligation
-	nfresh   int
-	npaths   int
-	notes    map[string]bool // assumptions / abstractions applied (for evidence)
-	used     map[string]bool // assumed contracts & handlers actually used
-	refused  string          // non-empty: function is out of reach, with the reason
-	safety   bool
-	debugNames map[*ssa.Function]map[string][]*ssa.DebugRef
-	entry    *State
-	params   map[string]SV
-	curIns   ssa.Instruction
-	groupKey string
+	eng         *Engine
+	fn          *ssa.Function
+	contract    *Contract
+	props       []string
+	decls       []string
+	declSet     map[string]bool
+	axioms      []string
+	obls        []*Obligation
+	nfresh      int
+	npaths      int
+	notes       map[string]bool // assumptions / abstractions applied (for evidence)
+	used        map[string]bool // assumed contracts & handlers actually used
+	refused     string          // non-empty: function is out of reach, with the reason
+	safety      bool
+	debugNames  map[*ssa.Function]map[string][]*ssa.DebugRef
+	entry       *State
+	params      map[string]SV
+	curIns      ssa.Instruction
+	groupKey    string
 	groupPrefix string
-	valueNames []string
+	valueNames  []string
 	valueLabels map[string]string
 	extraValues []string
-	maxPaths int
+	maxPaths    int
 	inlineDepth int
-	lets     map[string]SV
-	nq       int
-	nreturns int
-	lockCheck bool
-	curFrame *Frame
-	key      string
-	nprune   int
-	npruned  int
+	lets        map[string]SV
+	nq          int
+	nreturns    int
+	lockCheck   bool
+	curFrame    *Frame
+	key         string
+	nprune      int
+	npruned     int
 }
 
 func (vc *VC) note(format string, args ...interface{}) {
@@ -575,4 +599,8 @@ func sortedKeys(m map[string]bool) []string {
 	}
 	sort.Strings(out)
 	return out
+}
+
+func (o *Obligation) fileBase() string {
+	return fmt.Sprintf("%s_p%d_%d", o.Name, o.Path, o.Seq)
 }
